@@ -231,6 +231,18 @@ def r_numbering(repo, rep, R='R7.3'):
                      and l.iter.args and (src(l.iter.args[0]) in params or (isinstance(l.iter.args[0], ast.Call) and src(l.iter.args[0].func) == 'zip'
                                                                           and l.iter.args[0].args and src(l.iter.args[0].args[0]) in params))
                      and enclosing_function(l) is fn and not any(isinstance(q, ast.For) for q in _parents_until(l, fn))]
+            # the batch walked without an index of its own: whatever numbers the records then advances per tree, not per sentence
+            for l in [l for l in ast.walk(fn) if isinstance(l, ast.For) and isinstance(l.iter, ast.Name) and l.iter.id in params and isinstance(l.target, ast.Name)
+                      and enclosing_function(l) is fn and not any(isinstance(q, ast.For) for q in _parents_until(l, fn))]:
+                inner_ = [q for q in ast.walk(l) if isinstance(q, ast.For) and q is not l and any(isinstance(n, ast.Name) and n.id == l.target.id for n in ast.walk(q.iter))]
+                counters = {a_.target.id for q in inner_ for a_ in ast.walk(q) if isinstance(a_, ast.AugAssign) and isinstance(a_.target, ast.Name)}
+                # a counter that is set anew for every sentence (the rank of a tree among the n best) is not a record number
+                counters -= {t.id for a_ in ast.walk(l) if isinstance(a_, ast.Assign) for t in a_.targets if isinstance(t, ast.Name)}
+                if inner_ and counters:
+                    sites += 1
+                    rep.check(False, R, '%s:%s %s' % (rel, l.lineno, fn.name), '%s:%s:numbering:outer-index' % (rel, fn.name), '',
+                              'the batch is walked without a sentence index and the records are numbered by %s, which advances with every tree: the second tree of a sentence '
+                              'gets the number of the next sentence' % sorted(counters))
             for l in loops:
                 sites += 1
                 w = '%s:%s %s' % (rel, l.lineno, fn.name)
@@ -624,6 +636,58 @@ def r_html_category(repo, rep, R='R7.10'):
               'the html page drops features from categories: %s (pattern %r)' % (detail, pats[0]))
 
 
+CONTENT_SEARCH_EXAMPLE = '''
+def _process(tree):
+    def rec(node):
+        if node.is_leaf:
+            start = tokens.index(node.token)
+    tokens = tree.tokens
+'''
+
+
+def content_searches(tree_node):
+    """calls xs.index(v): the position of the first element *equal* to v -- for tokens (dicts compared by content) and leaves
+    not the position of this very object"""
+    return [n for n in ast.walk(tree_node) if isinstance(n, ast.Call) and isinstance(n.func, ast.Attribute) and n.func.attr == 'index'
+            and len(n.args) == 1 and not n.keywords and not (isinstance(n.func.value, ast.Constant))]
+
+
+def r_leaf_positions(repo, rep, R='R7.11'):
+    """positions of leaves / tokens come from the walk (a counter, enumerate, a queue that is popped), never from looking
+    the token up by value: a sentence with two equal tokens would give both the position of the first"""
+    ex = ast.parse(CONTENT_SEARCH_EXAMPLE)
+    if len(content_searches(ex)) != 1:
+        raise AnalysisError('embedded positive example for R7.11 no longer matches')
+    n = 0
+    for rel in repo.py_files('depccg/printer'):
+        mod = repo.module(rel)
+        for fn in [f for f in mod.tree.body if isinstance(f, (ast.FunctionDef, ast.ClassDef))]:
+            n += 1
+            for c in content_searches(fn):
+                recv = src(c.func.value)
+                if any(k in recv.lower() for k in ('token', 'leaves', 'leaf', 'words', 'children')) or any(
+                        k in src(c.args[0]).lower() for k in ('token', 'leaf', 'node', 'child', 'word')):
+                    rep.violation(R, '%s:%s %s' % (rel, c.lineno, fn.name), '%s:%s:position-by-search' % (rel, fn.name),
+                                  '`%s` looks the position up by value: two tokens with the same content (a repeated word) both get the position of the first, '
+                                  'so this format places the leaf elsewhere than the formats that count the leaves' % src(c)[:70])
+    rep.ok(R, 'depccg/printer/*', 'no encoder finds the position of a leaf or token by searching for an equal element (%d definitions scanned; embedded example fires)' % n)
+
+
+def r_extended_leaf(repo, rep, R='R7.12'):
+    """the extended AUTO leaf record lists category, word, lemma, POS, entity, chunk, category -- the order its consumers
+    (and the prolog / xml / json encoders, by name) give these annotations"""
+    from .c08 import writer_templates, role_of, AUTO
+    am = repo.module(AUTO)
+    p, (lst, leaf), (nst, node) = writer_templates(am, 'auto_extended_of')
+    toks = codec.fstr_tokens(leaf)
+    roles = [role_of(t, p)[0] for t in toks if t]
+    fn = am.get('auto_extended_of')
+    want = ['lit', 'cat', 'word', 'attr:lemma', 'pos', 'attr:entity', 'attr:chunk', 'cat']
+    rep.check(roles == want, R, '%s:%s auto_extended_of' % (AUTO, fn.lineno), 'auto_extended:leaf-fields',
+              'the extended leaf record is <L cat word lemma pos entity chunk cat>',
+              'the extended leaf record lists its fields as %s, expected %s: a reader of the format takes the annotations by position' % (roles, want))
+
+
 def check(repo, rep, tier):
     from ..lints import r_import_time_language
     r_import_time_language(repo, rep, 'R7.4', repo.py_files('depccg/printer'))
@@ -651,3 +715,7 @@ def check(repo, rep, tier):
     r_prolog_text(repo, rep)
     rep.rule('R7.10', 'the html category splitter accepts every feature spelling of the shipped inventories inside its bracket group')
     r_html_category(repo, rep)
+    rep.rule('R7.11', 'positions of leaves and tokens come from the walk, never from searching for an equal element')
+    r_leaf_positions(repo, rep)
+    rep.rule('R7.12', 'field order of the extended AUTO leaf record')
+    r_extended_leaf(repo, rep)
